@@ -86,13 +86,17 @@ IMatch(name, fullname, determineNs) ==
 IEndsWithTextual(t, cand) == IsSuffix(cand, t)
 IEndsWith(t, cand) == t = cand \/ IsSuffix(<<":">> \o cand, t)
 
-IFindWith(EW(_, _), exactFirst, q, names) ==
-  LET M == {t \in names : IMatch(Text(q), Text(t), TRUE)} IN
+\* on TEXTS (what the code has): _find_task_full_name(qtxt, txts, determine_namespace = det)
+IFindTxt(EW(_, _), exactFirst, det, qtxt, txts) ==
+  LET M == {t \in txts : IMatch(qtxt, t, det)} IN
   IF M = {} THEN NotFound
-  ELSE IF exactFirst /\ \E t \in M : Text(t) = Text(q) THEN CHOOSE t \in M : Text(t) = Text(q)
-  ELSE IF Cardinality(M) = 1 THEN CHOOSE t \in M : TRUE
-  ELSE IF \E c \in M : \A t \in M : EW(Text(t), Text(c)) THEN CHOOSE c \in M : \A t \in M : EW(Text(t), Text(c))
+  ELSE IF exactFirst /\ qtxt \in M THEN [txt |-> qtxt]
+  ELSE IF Cardinality(M) = 1 THEN [txt |-> CHOOSE t \in M : TRUE]
+  ELSE IF \E c \in M : \A t \in M : EW(t, c) THEN [txt |-> CHOOSE c \in M : \A t \in M : EW(t, c)]
   ELSE Ambiguous
+IFindWith(EW(_, _), exactFirst, q, names) ==
+  LET r == IFindTxt(EW, exactFirst, TRUE, Text(q), {Text(t) : t \in names}) IN
+  IF "err" \in DOMAIN r THEN r ELSE CHOOSE t \in names : Text(t) = r.txt
 \* as repaired (exact full name first, then token-boundary suffix priority) / as in the pinned 1.4.0 code
 IFind(q, names)        == IFindWith(IEndsWith, TRUE, q, names)
 IFindTextual(q, names) == IFindWith(IEndsWithTextual, FALSE, q, names)
